@@ -150,9 +150,10 @@ def generate(rng, tier, boost):
         add((1105, [T('bc'), ver, rbytes(rng, 20)]))
         add((1107, [0, ver, rbytes(rng, 20)]))
     # prefixes that are not valid (upper case, out of range, empty) and the 90-character limit
-    for hrp in ['', 'BC', 'Bc', 'b c', 'b\x7f', 'bİ', 'ß', 'A', 'A1']:
+    for hrp in ['', 'BC', 'Bc', 'b c', 'b\x7f', 'b\x80', '\x7f', ' ', 'bİ', 'ß', 'A', 'A1']:
         for ver, n in ((0, 20), (1, 2), (0, 32)):
             add((1105, [T(hrp), ver, rbytes(rng, n)]))
+            dec(hrp, mk_addr(hrp, ver, rbytes(rng, n)))       # checksum-valid string under a bad prefix
     for ver, n in ((0, 20), (0, 32), (1, 2), (1, 40), (16, 33)):
         body = 1 + (8 * n + 4) // 5 + 6
         for total in (88, 89, 90, 91, 92):
